@@ -610,9 +610,21 @@ def assemble(fragments, features, out_path):
         line_no += s.count('\n')
 
     def load(frag, depth=0):
-        """template text with //@include <file> expanded (relative to the including file)"""
+        """template text with //@include <file> expanded (relative to the including file);
+        `//@iffeature F` / `//@ifnotfeature F` directly before an include line guards the include"""
         res = []
-        for l in open(frag).read().split('\n'):
+        src_lines = open(frag).read().split('\n')
+        k = 0
+        while k < len(src_lines):
+            l = src_lines[k]
+            g = re.match(r'^\s*//@(iffeature|ifnotfeature)\s+(\S+)', l)
+            if g and k + 1 < len(src_lines) and re.match(r'^\s*//@include\s', src_lines[k + 1]):
+                on = (g.group(2) in features) == (g.group(1) == 'iffeature')
+                if not on:
+                    k += 2
+                    continue
+                k += 1
+                l = src_lines[k]
             m = re.match(r'^\s*//@include\s+(\S+)', l)
             if m:
                 if depth > 8:
@@ -620,6 +632,7 @@ def assemble(fragments, features, out_path):
                 res += load(os.path.join(os.path.dirname(frag), m.group(1)), depth + 1)
             else:
                 res.append(l)
+            k += 1
         return res
 
     for frag in fragments:
